@@ -206,6 +206,17 @@ theorem dist_forms_agree (c : Cfg) (hc : c.valid = true) (o1 o2 : TObj) (h1 : Ob
     (unfold distance; simp only [e1, e2, e1', e2', bind, Except.bind, pure, Except.pure, h1.chk, h2.chk, ne_eq,
       not_true_eq_false, ↓reduceIte])
 
+/-- the distance of two valid digests of one configuration is the reference scoring (`totalDiff`: mod-differences of
+    Lvalue and the q ratios, checksum mismatch, bit-pair table over the body) of their bytes -/
+theorem dist_refines (c : Cfg) (hc : c.valid = true) (o1 o2 : TObj) (h1 : ObjWF c o1) (h2 : ObjWF c o2) (lv : Bool) :
+    distance (.raw (digest o1)) (.raw (digest o2)) lv
+      = .ok (some (Spec.Tlsh.distance c.chklen (digest o1) (digest o2) lv)) := by
+  have e1 := resolve_raw_digest hc h1
+  have e2 := resolve_raw_digest hc h2
+  rw [spec_distance_eq h1 h2]
+  unfold distance
+  simp only [e1, e2, bind, Except.bind, pure, Except.pure, h1.chk, h2.chk, ne_eq, not_true_eq_false, ↓reduceIte]
+
 /-! ## Nilsimsa -/
 
 /-- the table the live object uses for the default target 53 is what the generating rule gives -/
